@@ -526,6 +526,9 @@ sort_int_nodups(KEY_TYPE *p, size_t n)
 	*/
 	work = NULL;
 	if (n > QUICKSORT_BEATS_RADIXSORT)
+#ifdef BTREES_VERIF
+		if (!verif_alloc_should_fail())
+#endif
 		work = (element_type *)malloc(n * sizeof(element_type));
 
 	if (work) {
